@@ -134,6 +134,11 @@ def gen_matrix(rng, big=False):
             k = rng.randrange(d)
             if goals[k] in ("min", "max") and rows[j][k] not in (INF, -INF):
                 rows[j][k] += rng.choice([-1.0, 1.0])
+    if kind in ("small", "ties", "wide", "mixed") and rng.random() < 0.15:
+        # unit conversion: every min / max column scaled by a power of two (order-preserving and exact), tiny or huge magnitudes
+        sc = 2.0 ** rng.choice([-70, -55, -45, 45])
+        rows = [[x * sc if goals[k] in ("min", "max") else x for k, x in enumerate(r)] for r in rows]
+        kind = kind + "-scaled"
     dtype = rng.choice(["float32", "float64"])
     if dtype == "float32":
         rows = [[float(np.float32(x)) for x in r] for r in rows]
